@@ -20,10 +20,14 @@ class C06(vlib.Spec):
                    "atoms (singleton set/map, WithBot/WithTop of atoms) are modelled in the carrier of the "
                    "lattice they come from; the heterogeneous Merge<Atom> is the carrier's merge",
                    "UnionFind: model of union_find.rs is e1-uf-tomb's Lattice/UF.v; partitions observed through "
-                   "same() on items 0..7; inputs are forests built with UnionFind::new (parent <= key)"]
+                   "same() on items 0..7; inputs built with UnionFind::new from explicit parent maps: forests, and maps "
+                   "with pure-cycle components (lengths 2..4, which find closes on the fly); rho shapes (a tail "
+                   "into a cycle, on which find diverges) are excluded; the UnionFind theorems are stated for forests "
+                   "-- on the cyclic values the property is evaluated on the implementation's atoms and the model "
+                   "is compared, not proved"]
     rule = ("one case = (type, value a, accumulator acc) for 24 registered atomizable Rust types; a random / "
             "sprinkled with bottom-valued entries and Some(bottom) / bottom-but-not-Default; plus UnionFind<HashMap/BTreeMap> "
-            "forests over items 0..7; "
+            "parent maps over items 0..7 (forests; about 40% with pure-cycle components); "
             "non-trivial = a has at least one atom, or a is bottom without being Default")
 
     def types(self):
@@ -32,7 +36,7 @@ class C06(vlib.Spec):
         return self._types
 
     def gen(self, rng, tier, n):
-        return atom.gen_cases(rng, self.types(), tier, n) + atom.gen_uf_cases(rng, tier, max(40, n // 8))
+        return atom.gen_cases(rng, self.types(), tier, n) + atom.gen_uf_cases(rng, tier, max(60, n // 6))
 
     def n_cases(self, tier):
         return 700 if tier == "quick" else 8000
